@@ -25,7 +25,7 @@ RULE = ("inputs: C01's directed corpus, frame URLs with every 1-2 token sequence
         "depends on the escape spelling, escaped tracking keys; option vectors platform_aware x strip_suffix x quoted (canonicalize_url with both quoted values on the inner side). "
         "A case is (url, option vector) for the composition laws and (url a, url b, vector) for collisions; non-trivial = C(u) != u, or an actual collision C(a)==C(b) / N(a)==N(b) with a != b; distinct = distinct tuple.")
 ASSUMPTIONS = ["same options on both sides; inputs that normalize_url returns unchanged because it cannot parse them are excluded (C05 owns them)", "the hierarchy is only checked in the stated direction"]
-FLOORS = ["N-of-C-checked", "F-of-C-checked", "canonical-collision-seen", "normalized-collision-seen", "sort-order-depends-on-spelling", "escaped-tracking-key", "opt-quoted", "opt-platform_aware",
+FLOORS = ["N-of-C-checked", "F-of-C-checked", "canonical-collision-seen", "normalized-collision-seen", "sort-order-depends-on-spelling", "escaped-tracking-key", "escaped-uppercase-or-scheme-less-redirect", "opt-quoted", "opt-platform_aware",
           "opt-strip_suffix", "bucket-by-log"]
 PROBE_FLOORS = ["qsl_sort_key", "should_strip_query_item"]
 
@@ -150,6 +150,9 @@ def bucket_log(ctx, log):
 
 SORT_SPELLING = [("http://a.com/?%7A=1&a=2", "http://a.com/?z=1&a=2"), ("http://a.com/?%61=1&b=2&B=3", "http://a.com/?a=1&b=2&B=3"), ("http://a.com/?b=%32&b=10", "http://a.com/?b=2&b=10"),
                  ("http://a.com/p?é=1&%C3%A9=0&z", "http://a.com/p?%c3%a9=1&é=0&z"), ("http://a.com/?a=1&a&a=", "http://a.com/?a&a=&a=1")]
+ESC_UPPER = [("http://a.com/?%42=1&a=2", "http://a.com/?B=1&a=2"), ("http://a.com/?ref=%46B&x=1", "http://a.com/?ref=FB&x=1"), ("http://a.com/%41bc?Z=%5A", "http://a.com/Abc?Z=Z"),
+             ("http://a.fr/x/%69ndex.html", "http://a.fr/x/index.html"), ("http://a.fr/x/%49ndex.html", "http://a.fr/x/Index.html"), ("http://a.fr/x/b.%61mp", "http://a.fr/x/b.amp"),
+             ("http://a.fr/x/b.%41MP.html?%55TM_source=1", "http://a.fr/x/b.AMP.html?UTM_source=1"), ("a.fr?u=/p", "https://a.fr/?u=/p"), ("a.fr/login?next=/home&x=1", "https://a.fr/login?next=/home&x=1")]
 ESC_TRACKING = [("http://a.com/x?%75tm_source=1&id=2", "http://a.com/x?id=2"), ("http://a.com/x?utm%5Fsource=1", "http://a.com/x"), ("http://a.com/x?%66bclid=abc&a=1", "http://a.com/x?a=1"),
                 ("http://a.com/x?re%66=twitter", "http://a.com/x?ref=%74witter")]
 
@@ -175,6 +178,11 @@ def run(ctx):
                 laws(ctx, fns, a, V, log)
                 laws(ctx, fns, b, V, log)
                 collisions(ctx, fns, a, b, "sort-spelling", V)
+            for a, b in ESC_UPPER:
+                ctx.count("escaped-uppercase-or-scheme-less-redirect")
+                laws(ctx, fns, a, V, log)
+                laws(ctx, fns, b, V, log)
+                collisions(ctx, fns, a, b, "escaped-uppercase", V)
             for a, b in ESC_TRACKING:
                 ctx.count("escaped-tracking-key")
                 laws(ctx, fns, a, V, log)
